@@ -124,6 +124,19 @@ Ltac align_blocked s1 s2 :=
    replace the left one (used when the two state tuples are arranged differently). *)
 Ltac msim_with reshape :=
   mnorm;
+  first
+  [ (* the right-hand side (the model) is blocked on a boolean test: split on it first, so that a test the source
+       writes the other way round (if not c / if c with the branches exchanged, an early return turned into a guarded
+       block) meets its counterpart; impossible combinations are discarded by case_on *)
+    lazymatch goal with
+    | |- _ = ?r =>
+        let sr := scrut r in
+        lazymatch type of sr with
+        | bool => tryif is_value sr then fail else case_on sr
+        end
+    end; msim_with reshape
+  | msim_body reshape ]
+with msim_body reshape :=
   lazymatch goal with
   | |- ?l = ?r =>
       let s := scrut l in
